@@ -31,7 +31,14 @@ func cmdReplay(args []string) {
 	worlds := map[string]*gq.World{}
 	for _, s := range strings.Split(*strat, ",") {
 		for lm := gq.ListMode(0); lm < 3; lm++ {
-			w, err := gq.NewWorld(&u, gq.Strategy(s), lm)
+			var w *gq.World
+			var err error
+			if s == "refl" {
+				// list mode index doubles as the binding mode: by name / RegisterType / @go
+				w, err = gq.NewReflWorld(&u, lm, gq.Binding(lm))
+			} else {
+				w, err = gq.NewWorld(&u, gq.Strategy(s), lm)
+			}
 			if err != nil {
 				vh.Die("%s", err)
 			}
@@ -43,9 +50,43 @@ func cmdReplay(args []string) {
 		if c.Exp == nil {
 			vh.Die("case %d has no expectation", i)
 		}
+		if c.Mix != nil {
+			w, err := gq.NewMixedWorld(&u, gq.ListMode(i%3), c.Mix)
+			if err != nil {
+				vh.Die("%s", err)
+			}
+			act := w.Run(c, gq.Layouts[i%len(gq.Layouts)])
+			rep.Case("mixed|"+c.Doc.Text(gq.Layouts[0])+vh.JS(c.Mix), true)
+			rep.Class("mixed")
+			if i%97 == 0 {
+				rep.Sample(map[string]interface{}{"request": c.Doc.Text(gq.Layouts[0]), "mix": c.Mix, "via": c.Via})
+			}
+			cs := func(aspect string) map[string]interface{} {
+				return map[string]interface{}{"fam": c.Fam, "request": c.Doc.Text(gq.Layouts[0]), "mix": c.Mix, "strategy": "mixed", "aspect": aspect}
+			}
+			for _, d := range gq.Compare(c.Exp, act, true) {
+				rep.Mismatch(vh.Mismatch{Case: cs(d.Aspect), What: d.Aspect + ": " + d.What})
+			}
+			if len(act.Calls) == len(c.Via) {
+				for k := range c.Via {
+					if act.Calls[k].Via != c.Via[k] {
+						rep.Mismatch(vh.Mismatch{Case: cs("precedence"), What: fmt.Sprintf("precedence: call %d (%s.%s) was served by %q, the model says %q",
+							k+1, act.Calls[k].Node, act.Calls[k].Field, act.Calls[k].Via, c.Via[k])})
+						break
+					}
+				}
+			}
+			continue
+		}
 		for si, s := range strings.Split(*strat, ",") {
 			lm := (i + si) % 3
 			lo := gq.Layouts[(i+si)%len(gq.Layouts)]
+			if s == "refl" && !gq.ReflSuitable(&u, c) {
+				continue
+			}
+			if (c.Fam == "abstract" || c.Fam == "defectabs") && s != "refl" {
+				continue // abstract types need Go type bindings: reflection only (documented limitation)
+			}
 			if gq.HasNthFault(c) { // accessor failures exist only behind AnyResolver.Len/Nth
 				if s != "any" {
 					continue
@@ -96,6 +137,7 @@ func cmdRecord(args []string) {
 	outp := fs.String("out", "", "ndjson output")
 	strat := fs.String("strategies", "iface,any", "strategies")
 	depth := fs.Int("depth", 3, "selection depth")
+	abstract := fs.Bool("abstract", false, "generate fragments with interface/union conditions and selections under abstract typed fields (reflection on the fixed universe)")
 	ncalls := fs.Int("calls", 1, "resolves per parsed document (C11: >1 reuses one parsed executable)")
 	_ = fs.Parse(args)
 	var fixed gq.Universe
@@ -126,19 +168,40 @@ func cmdRecord(args []string) {
 		_ = enc.Encode(map[string]interface{}{"r": "universe", "u": u})
 		idx++
 		worlds := map[string]*gq.World{}
+		var usable []string
 		for _, s := range strategies {
+			if s == "refl" && ui != 0 {
+				continue // reflection needs the hand written Go types of the fixed universe
+			}
+			usable = append(usable, s)
 			for lm := gq.ListMode(0); lm < 3; lm++ {
-				w, err := gq.NewWorld(u, gq.Strategy(s), lm)
+				var w *gq.World
+				var err error
+				if s == "refl" {
+					w, err = gq.NewReflWorld(u, lm, gq.Binding(lm))
+				} else {
+					w, err = gq.NewWorld(u, gq.Strategy(s), lm)
+				}
 				if err != nil {
 					vh.Die("%s", err)
 				}
 				worlds[s+string(rune('0'+int(lm)))] = w
 			}
 		}
-		for k := 0; k < per; k++ {
+		if len(usable) == 0 {
+			continue
+		}
+		tries := 0
+		for k := 0; k < per && tries < per*20; k++ {
+			tries++
+			s := usable[rng.Intn(len(usable))]
+			g.Abstract = *abstract && s == "refl"
 			c := g.Case(1 + rng.Intn(*depth))
 			c.Doc.Normalize()
-			s := strategies[rng.Intn(len(strategies))]
+			if s == "refl" && !gq.ReflSuitable(u, c) {
+				k--
+				continue
+			}
 			lm := rng.Intn(3)
 			lo := gq.Layouts[rng.Intn(len(gq.Layouts))]
 			w := worlds[s+string(rune('0'+lm))]
@@ -394,10 +457,12 @@ func pathsOnly(errs []gq.ErrRec) []map[string]interface{} {
 }
 
 func callsOrEmpty(c []gq.Call) []gq.Call {
-	if c == nil {
-		return []gq.Call{}
+	out := []gq.Call{}
+	for _, x := range c {
+		x.Via = ""
+		out = append(out, x)
 	}
-	return c
+	return out
 }
 
 func main() {
